@@ -52,12 +52,13 @@ end
 mutual
 /-- What is declared safe is public: leaves of `SafeValue`/registered types, everything
 inside `Safe(…)`, inside values of registered or `SafeValue` types, and the text a
-`SafeMessager` returns. Nothing else is constrained. -/
+`SafeMessager` returns (also underneath an `Unsafe(…)` wrapper: a declaration of safety
+does not depend on where the value is printed). Nothing else is constrained. -/
 def SecV : Val → Prop
   | .nil => True
   | .leaf id _ _ _ sv reg => (sv = true ∨ reg = true) → pub id
   | .safeW v => AllPubV pub v
-  | .unsafeW _ => True
+  | .unsafeW v => SecV v
   | .redactable _ _ => True
   | .meth ms _ sv reg _ ret sc under =>
     ((sv = true ∨ reg = true) → pub ret ∧ AllPubS pub sc ∧ AllPubV pub under) ∧
@@ -90,25 +91,25 @@ def SecAt (ov : Override) (v : Val) : Prop :=
   match ov with
   | .ovSafe => AllPubV pub v
   | .no => SecV pub v
-  | .ovUnsafe => True
+  | .ovUnsafe => SecV pub v
 
 def SecAtS (ov : Override) (sc : Script) : Prop :=
   match ov with
   | .ovSafe => AllPubS pub sc
   | .no => SecS pub sc
-  | .ovUnsafe => True
+  | .ovUnsafe => SecS pub sc
 
 def SecAtVs (ov : Override) (vs : Vals) : Prop :=
   match ov with
   | .ovSafe => AllPubVs pub vs
   | .no => SecVs pub vs
-  | .ovUnsafe => True
+  | .ovUnsafe => SecVs pub vs
 
 def SecAtFs (ov : Override) (fs : Fields) : Prop :=
   match ov with
   | .ovSafe => AllPubFs pub fs
   | .no => SecFs pub fs
-  | .ovUnsafe => True
+  | .ovUnsafe => SecFs pub fs
 
 def SecAtL (ov : Override) (l : List Val) : Prop := ∀ v ∈ l, SecAt pub ov v
 
@@ -131,7 +132,7 @@ theorem sec_of_allPubV (pub : Nat → Prop) : (v : Val) → AllPubV pub v → Se
   | .nil, _ => trivial
   | .leaf _ _ _ _ _ _, h => fun _ => h
   | .safeW _, h => h
-  | .unsafeW _, _ => trivial
+  | .unsafeW v, h => sec_of_allPubV pub v h
   | .redactable _ _, _ => trivial
   | .meth _ _ _ _ _ _ sc under, h =>
     ⟨fun _ => h, fun _ => h.1, secS_of_allPubS pub sc h.2.1, sec_of_allPubV pub under h.2.2⟩
@@ -174,24 +175,28 @@ structure PRel (p1 p2 : PP) : Prop where
   ro : p2.reordered = p1.reordered
   ga : p2.goodArgNum = p1.goodArgNum
 
-/-- Related results; on success the override is the one the call started with (`ov0`). -/
-def RR (ov0 : Override) (r1 r2 : Res) : Prop :=
+/-- Related results; on success the override is the one the call started with (`ov0`); when a
+panic propagates, the buffers it carries are related and the payload is the same value. -/
+def RR (pub : Nat → Prop) (ov0 : Override) (r1 r2 : Res) : Prop :=
   match r1, r2 with
   | .ok q1, .ok q2 => PRel q1 q2 ∧ q1.override = ov0
-  | .panic, .panic => True
+  | .panic b1 pl1, .panic b2 pl2 => BRel b1 b2 ∧ pl2 = pl1 ∧ ValOk pl1 ∧ SecAt pub ov0 pl1
   | .fuel, .fuel => True
   | .unsupported, .unsupported => True
   | _, _ => False
 
+variable {pub : Nat → Prop}
+
 theorem PRel.mode2 {p1 p2 : PP} (h : PRel p1 p2) : p2.buf.mode = p1.buf.mode := h.b.mode.symm
 
-theorem RR_ok {ov0 : Override} {q1 q2 : PP} (h : PRel q1 q2) (ho : q1.override = ov0) : RR ov0 (.ok q1) (.ok q2) := ⟨h, ho⟩
-theorem RR_fuel (ov0 : Override) : RR ov0 .fuel .fuel := trivial
-theorem RR_panic (ov0 : Override) : RR ov0 .panic .panic := trivial
-theorem RR_unsupported (ov0 : Override) : RR ov0 .unsupported .unsupported := trivial
+theorem RR_ok {ov0 : Override} {q1 q2 : PP} (h : PRel q1 q2) (ho : q1.override = ov0) : RR pub ov0 (.ok q1) (.ok q2) := ⟨h, ho⟩
+theorem RR_fuel (ov0 : Override) : RR pub ov0 .fuel .fuel := trivial
+theorem RR_panic {ov0 : Override} {b1 b2 : Buffer} {pl : Val} (hb : BRel b1 b2) (hv : ValOk pl) (hs : SecAt pub ov0 pl) :
+    RR pub ov0 (.panic b1 pl) (.panic b2 pl) := ⟨hb, rfl, hv, hs⟩
+theorem RR_unsupported (ov0 : Override) : RR pub ov0 .unsupported .unsupported := trivial
 
-theorem RR_bind {ov0 : Override} {r1 r2 : Res} {f1 f2 : PP → Res} (h : RR ov0 r1 r2)
-    (hf : ∀ q1 q2, PRel q1 q2 → q1.override = ov0 → RR ov0 (f1 q1) (f2 q2)) : RR ov0 (r1.bind f1) (r2.bind f2) := by
+theorem RR_bind {ov0 : Override} {r1 r2 : Res} {f1 f2 : PP → Res} (h : RR pub ov0 r1 r2)
+    (hf : ∀ q1 q2, PRel q1 q2 → q1.override = ov0 → RR pub ov0 (f1 q1) (f2 q2)) : RR pub ov0 (r1.bind f1) (r2.bind f2) := by
   cases r1 <;> cases r2 <;> simp only [RR] at h <;> try (exact h.elim)
   · exact hf _ _ h.1 h.2
   all_goals trivial
@@ -210,8 +215,8 @@ theorem P_ite {c : Prop} [Decidable c] {a1 b1 a2 b2 : PP} (ha : PRel a1 a2) (hb 
     PRel (if c then a1 else b1) (if c then a2 else b2) := by
   split <;> assumption
 
-theorem RR_ite {ov0 : Override} {c : Prop} [Decidable c] {a1 b1 a2 b2 : Res} (ha : RR ov0 a1 a2) (hb : RR ov0 b1 b2) :
-    RR ov0 (if c then a1 else b1) (if c then a2 else b2) := by
+theorem RR_ite {ov0 : Override} {c : Prop} [Decidable c] {a1 b1 a2 b2 : Res} (ha : RR pub ov0 a1 a2) (hb : RR pub ov0 b1 b2) :
+    RR pub ov0 (if c then a1 else b1) (if c then a2 else b2) := by
   split <;> assumption
 
 /-- Mode switch of both runs (to an escaping mode). -/
@@ -226,15 +231,18 @@ theorem P_setMode {p1 p2 : PP} (h : PRel p1 p2) (m : Mode) (hm : m ≠ .raw) :
 structure StartOk (start : PP → PP × PP.Restorer) : Prop where
   rel : ∀ p1 p2, PRel p1 p2 → PRel (start p1).1 (start p2).1
   rest1 : ∀ p, (start p).2 = ⟨p.buf.mode, p.override⟩
+  /-- what is public enough inside the bracket is public enough outside it -/
+  mono : ∀ (pub : Nat → Prop) p v, SecAt pub (start p).1.override v → SecAt pub p.override v
 
 theorem RR_bracket {ov0 : Override} (start : PP → PP × PP.Restorer) (hs : StartOk start)
     {p1 p2 : PP} (h : PRel p1 p2) (ho : p1.override = ov0) (body1 body2 : PP → Res)
-    (hb : RR (start p1).1.override (body1 (start p1).1) (body2 (start p2).1)) :
-    RR ov0 (bracket start p1 body1) (bracket start p2 body2) := by
+    (hb : RR pub (start p1).1.override (body1 (start p1).1) (body2 (start p2).1)) :
+    RR pub ov0 (bracket start p1 body1) (bracket start p2 body2) := by
   unfold bracket
   have e1 := hs.rest1 p1
   have e2 := hs.rest1 p2
-  generalize start p1 = sp1 at hb e1
+  have hm := hs.mono pub p1
+  generalize start p1 = sp1 at hb e1 hm
   generalize start p2 = sp2 at hb e2
   obtain ⟨q1, r1⟩ := sp1
   obtain ⟨q2, r2⟩ := sp2
@@ -248,10 +256,29 @@ theorem RR_bracket {ov0 : Override} (start : PP → PP × PP.Restorer) (hs : Sta
       rw [h.mode2]; exact setMode_rel _ _ _ hb.1.b
     · show (x1.buf.setMode p1.buf.mode).mode ≠ _
       rw [setMode_mode]; exact h.nr
+  · rename_i b1 pl1 b2 pl2
+    obtain ⟨hbr, rfl, hv, hsec⟩ := hb
+    exact RR_panic (by rw [h.mode2]; exact setMode_rel _ _ _ hbr) hv (ho ▸ hm _ hsec)
   all_goals trivial
 
+theorem secAt_mono_safe (pub : Nat → Prop) (ov : Override) (v : Val)
+    (h : SecAt pub (if ov = .no then .ovSafe else ov) v) : SecAt pub ov v := by
+  cases ov
+  · exact sec_of_allPubV pub v h
+  · exact h
+  · exact h
+
+theorem secAt_mono_unsafe (pub : Nat → Prop) (ov : Override) (v : Val)
+    (h : SecAt pub (if ov = .no then .ovUnsafe else ov) v) : SecAt pub ov v := by
+  cases ov <;> exact h
+
 theorem startOk_safeOverride : StartOk PP.startSafeOverride := by
-  refine ⟨fun p1 p2 h => ?_, fun p => rfl⟩
+  refine ⟨fun p1 p2 h => ?_, fun p => rfl, fun pub p v hv => ?_⟩
+  rotate_left
+  · apply secAt_mono_safe
+    have : p.startSafeOverride.1.override = (if p.override = .no then .ovSafe else p.override) := by
+      unfold PP.startSafeOverride; split <;> simp_all
+    rw [← this]; exact hv
   unfold PP.startSafeOverride
   by_cases hc : p1.override = .no
   · have hc2 : p2.override = .no := by rw [h.ov]; exact hc
@@ -262,7 +289,12 @@ theorem startOk_safeOverride : StartOk PP.startSafeOverride := by
     rw [if_neg hc, if_neg hc2]; exact h
 
 theorem startOk_unsafeOverride : StartOk PP.startUnsafeOverride := by
-  refine ⟨fun p1 p2 h => ?_, fun p => rfl⟩
+  refine ⟨fun p1 p2 h => ?_, fun p => rfl, fun pub p v hv => ?_⟩
+  rotate_left
+  · apply secAt_mono_unsafe
+    have : p.startUnsafeOverride.1.override = (if p.override = .no then .ovUnsafe else p.override) := by
+      unfold PP.startUnsafeOverride; split <;> simp_all
+    rw [← this]; exact hv
   unfold PP.startUnsafeOverride
   by_cases hc : p1.override = .no
   · have hc2 : p2.override = .no := by rw [h.ov]; exact hc
@@ -273,7 +305,10 @@ theorem startOk_unsafeOverride : StartOk PP.startUnsafeOverride := by
     rw [if_neg hc, if_neg hc2]; exact h
 
 theorem startOk_unsafe : StartOk PP.startUnsafe := by
-  refine ⟨fun p1 p2 h => ?_, fun p => rfl⟩
+  refine ⟨fun p1 p2 h => ?_, fun p => rfl, fun pub p v hv => ?_⟩
+  rotate_left
+  · have : p.startUnsafe.1.override = p.override := by unfold PP.startUnsafe; split <;> rfl
+    rw [← this]; exact hv
   unfold PP.startUnsafe
   by_cases hc : p1.override ≠ .ovSafe
   · have hc2 : p2.override ≠ .ovSafe := by rw [h.ov]; exact hc
@@ -316,7 +351,7 @@ theorem P_w2 {p1 p2 : PP} (h : PRel p1 p2) (a b : List Byte)
 case the leaf must be public. -/
 theorem RR_unsafeWrite {pub : Nat → Prop} {ov0 : Override} {p1 p2 : PP} (h : PRel p1 p2) (ho : p1.override = ov0)
     (a b : List Byte) (hab : canonB a = canonB b) (hpub : ov0 = .ovSafe → a = b) :
-    RR ov0 (bracket PP.startUnsafe p1 fun q => .ok (q.w a)) (bracket PP.startUnsafe p2 fun q => .ok (q.w b)) := by
+    RR pub ov0 (bracket PP.startUnsafe p1 fun q => .ok (q.w a)) (bracket PP.startUnsafe p2 fun q => .ok (q.w b)) := by
   have _ := pub
   apply RR_bracket _ startOk_unsafe h ho
   have hs := startOk_unsafe.rel p1 p2 h
@@ -331,7 +366,7 @@ theorem RR_unsafeWrite {pub : Nat → Prop} {ov0 : Override} {p1 p2 : PP} (h : P
 
 theorem RR_leafWrite1 {pub : Nat → Prop} {env1 env2 : Env} (he : EnvRel pub env1 env2) {ov0 : Override}
     {p1 p2 : PP} (h : PRel p1 p2) (ho : p1.override = ov0) (id verb : Nat) (hpub : ov0 = .ovSafe → pub id) :
-    RR ov0 (leafWrite1 env1 p1 id verb) (leafWrite1 env2 p2 id verb) := by
+    RR pub ov0 (leafWrite1 env1 p1 id verb) (leafWrite1 env2 p2 id verb) := by
   unfold leafWrite1
   rw [h.f]
   cases hd : directive p1.f verb with
@@ -347,7 +382,7 @@ theorem RR_leafWrite1 {pub : Nat → Prop} {env1 env2 : Env} (he : EnvRel pub en
 theorem RR_leafWrite {pub : Nat → Prop} {env1 env2 : Env} (he : EnvRel pub env1 env2) {ov0 : Override}
     {p1 p2 : PP} (h : PRel p1 p2) (ho : p1.override = ov0) (id verb : Nat) (k : BK) (ty : List Byte)
     (hpub : ov0 = .ovSafe → pub id) :
-    RR ov0 (leafWrite env1 p1 id verb k ty) (leafWrite env2 p2 id verb k ty) := by
+    RR pub ov0 (leafWrite env1 p1 id verb k ty) (leafWrite env2 p2 id verb k ty) := by
   unfold leafWrite
   rw [h.f]
   split
@@ -357,7 +392,7 @@ theorem RR_leafWrite {pub : Nat → Prop} {env1 env2 : Env} (he : EnvRel pub env
 /-- A finished redactable operand: the same bytes in both runs, written raw. -/
 theorem RR_preRedactable {ov0 : Override} {p1 p2 : PP} (h : PRel p1 p2) (ho : p1.override = ov0)
     (content : List Byte) (hc : Obtainable content) :
-    RR ov0 (bracket PP.startPreRedactable p1 fun q => .ok (q.w content))
+    RR pub ov0 (bracket PP.startPreRedactable p1 fun q => .ok (q.w content))
            (bracket PP.startPreRedactable p2 fun q => .ok (q.w content)) := by
   unfold bracket PP.startPreRedactable
   by_cases hu : p1.override ≠ .ovUnsafe
@@ -390,11 +425,11 @@ def SR (pub : Nat → Prop) (ov0 : Override) (o1 o2 : SRes) : Prop :=
   match o1, o2 with
   | .ok q1, .ok q2 => PRel q1 q2 ∧ q1.override = ov0
   | .raised q1 pl1, .raised q2 pl2 => PRel q1 q2 ∧ q1.override = ov0 ∧ pl2 = pl1 ∧ ValOk pl1 ∧ SecAt pub ov0 pl1
-  | .abort r1, .abort r2 => RR ov0 r1 r2
+  | .abort r1, .abort r2 => RR pub ov0 r1 r2
   | _, _ => False
 
 /-- `(handled, result)` pairs. -/
-def RB (ov0 : Override) (x1 x2 : Bool × Res) : Prop := x1.1 = x2.1 ∧ RR ov0 x1.2 x2.2
+def RB (pub : Nat → Prop) (ov0 : Override) (x1 x2 : Bool × Res) : Prop := x1.1 = x2.1 ∧ RR pub ov0 x1.2 x2.2
 
 /-- What method dispatch needs to know about a value with methods under override `ov`. -/
 def MSec (pub : Nat → Prop) (ov : Override) (ms : Methods) (ret : Nat) (sc : Script) : Prop :=
@@ -402,50 +437,50 @@ def MSec (pub : Nat → Prop) (ov : Override) (ms : Methods) (ret : Nat) (sc : S
 
 structure RSpec (pub : Nat → Prop) (env1 env2 : Env) (n : Nat) : Prop where
   printArg : ∀ ov0 p1 p2 v verb, PRel p1 p2 → p1.override = ov0 → ValOk v → SecAt pub ov0 v →
-    RR ov0 (printArg env1 n p1 v verb) (printArg env2 n p2 v verb)
+    RR pub ov0 (printArg env1 n p1 v verb) (printArg env2 n p2 v verb)
   printArgBody : ∀ ov0 p1 p2 v verb, PRel p1 p2 → p1.override = ov0 → ValOk v → SecAt pub ov0 v →
-    RR ov0 (printArgBody env1 n p1 v verb) (printArgBody env2 n p2 v verb)
+    RR pub ov0 (printArgBody env1 n p1 v verb) (printArgBody env2 n p2 v verb)
   badVerb : ∀ ov0 p1 p2 v verb via, PRel p1 p2 → p1.override = ov0 → ValOk v → SecAt pub ov0 v →
-    RR ov0 (badVerb env1 n p1 v verb via) (badVerb env2 n p2 v verb via)
+    RR pub ov0 (badVerb env1 n p1 v verb via) (badVerb env2 n p2 v verb via)
   handleMethods : ∀ ov0 p1 p2 v verb, PRel p1 p2 → p1.override = ov0 → ValOk v → SecAt pub ov0 v →
-    RB ov0 (handleMethods env1 n p1 v verb) (handleMethods env2 n p2 v verb)
+    RB pub ov0 (handleMethods env1 n p1 v verb) (handleMethods env2 n p2 v verb)
   methDispatch : ∀ ov0 p1 p2 v ms nr ret sc verb, PRel p1 p2 → p1.override = ov0 → ValOk v → ScriptOk sc → SecAt pub ov0 v →
     MSec pub ov0 ms ret sc →
-    RB ov0 (methDispatch env1 n p1 v ms nr ret sc verb) (methDispatch env2 n p2 v ms nr ret sc verb)
+    RB pub ov0 (methDispatch env1 n p1 v ms nr ret sc verb) (methDispatch env2 n p2 v ms nr ret sc verb)
   fmtString : ∀ ov0 p1 p2 v ret verb, PRel p1 p2 → p1.override = ov0 → ValOk v → (verbOkFor .str verb = false → SecAt pub ov0 v) →
     (ov0 = .ovSafe → pub ret) →
-    RR ov0 (fmtString env1 n p1 v ret verb) (fmtString env2 n p2 v ret verb)
+    RR pub ov0 (fmtString env1 n p1 v ret verb) (fmtString env2 n p2 v ret verb)
   catchPanic : ∀ p01 p02 ov0 arg verb m nr out1 out2, SR pub ov0 out1 out2 →
-    RR ov0 (catchPanic env1 n p01 arg verb m nr out1) (catchPanic env2 n p02 arg verb m nr out2)
+    RR pub ov0 (catchPanic env1 n p01 arg verb m nr out1) (catchPanic env2 n p02 arg verb m nr out2)
   runScript : ∀ ov0 p1 p2 sc, PRel p1 p2 → p1.override = ov0 → ScriptOk sc → SecAtS pub ov0 sc →
     SR pub ov0 (runScript env1 n p1 sc) (runScript env2 n p2 sc)
   printValue : ∀ ov0 p1 p2 v verb d ro, PRel p1 p2 → p1.override = ov0 → ValOk v → SecAt pub ov0 v →
-    RR ov0 (printValue env1 n p1 v verb d ro) (printValue env2 n p2 v verb d ro)
+    RR pub ov0 (printValue env1 n p1 v verb d ro) (printValue env2 n p2 v verb d ro)
   printSlot : ∀ ov0 p1 p2 v verb d i ro, PRel p1 p2 → p1.override = ov0 → ValOk v → SecAt pub ov0 v →
-    RR ov0 (printSlot env1 n p1 v verb d i ro) (printSlot env2 n p2 v verb d i ro)
+    RR pub ov0 (printSlot env1 n p1 v verb d i ro) (printSlot env2 n p2 v verb d i ro)
   slotMethods : ∀ ov0 p1 p2 v verb, PRel p1 p2 → p1.override = ov0 → ValOk v → SecAt pub ov0 v →
-    RB ov0 (slotMethods env1 n p1 v verb) (slotMethods env2 n p2 v verb)
+    RB pub ov0 (slotMethods env1 n p1 v verb) (slotMethods env2 n p2 v verb)
   printFields : ∀ ov0 p1 p2 fs verb d ro f, PRel p1 p2 → p1.override = ov0 → FieldsOk fs → SecAtFs pub ov0 fs →
-    RR ov0 (printFields env1 n p1 fs verb d ro f) (printFields env2 n p2 fs verb d ro f)
+    RR pub ov0 (printFields env1 n p1 fs verb d ro f) (printFields env2 n p2 fs verb d ro f)
   printElems : ∀ ov0 p1 p2 vs verb d i ro f, PRel p1 p2 → p1.override = ov0 → ValsOk vs → SecAtVs pub ov0 vs →
-    RR ov0 (printElems env1 n p1 vs verb d i ro f) (printElems env2 n p2 vs verb d i ro f)
+    RR pub ov0 (printElems env1 n p1 vs verb d i ro f) (printElems env2 n p2 vs verb d i ro f)
   printPairs : ∀ ov0 p1 p2 ks vs verb d ik iv ro f, PRel p1 p2 → p1.override = ov0 → ValsOk ks → ValsOk vs →
     SecAtVs pub ov0 ks → SecAtVs pub ov0 vs →
-    RR ov0 (printPairs env1 n p1 ks vs verb d ik iv ro f) (printPairs env2 n p2 ks vs verb d ik iv ro f)
+    RR pub ov0 (printPairs env1 n p1 ks vs verb d ik iv ro f) (printPairs env2 n p2 ks vs verb d ik iv ro f)
   doPrint : ∀ ov0 p1 p2 args, PRel p1 p2 → p1.override = ov0 → ListOk args → SecAtL pub ov0 args →
-    RR ov0 (doPrint env1 n p1 args) (doPrint env2 n p2 args)
+    RR pub ov0 (doPrint env1 n p1 args) (doPrint env2 n p2 args)
   doPrintLoop : ∀ ov0 p1 p2 args k ps, PRel p1 p2 → p1.override = ov0 → ListOk args → SecAtL pub ov0 args →
-    RR ov0 (doPrintLoop env1 n p1 args k ps) (doPrintLoop env2 n p2 args k ps)
+    RR pub ov0 (doPrintLoop env1 n p1 args k ps) (doPrintLoop env2 n p2 args k ps)
   doPrintf : ∀ ov0 p1 p2 f args, PRel p1 p2 → p1.override = ov0 → ListOk args → SecAtL pub ov0 args →
-    RR ov0 (doPrintf env1 n p1 f args) (doPrintf env2 n p2 f args)
+    RR pub ov0 (doPrintf env1 n p1 f args) (doPrintf env2 n p2 f args)
   fmtLoop : ∀ ov0 p1 p2 f args k ai, PRel p1 p2 → p1.override = ov0 → ListOk args → SecAtL pub ov0 args →
-    RR ov0 (fmtLoop env1 n p1 f args k ai) (fmtLoop env2 n p2 f args k ai)
+    RR pub ov0 (fmtLoop env1 n p1 f args k ai) (fmtLoop env2 n p2 f args k ai)
   directiveTail : ∀ ov0 p1 p2 f args k ai, PRel p1 p2 → p1.override = ov0 → ListOk args → SecAtL pub ov0 args →
-    RR ov0 (directiveTail env1 n p1 f args k ai) (directiveTail env2 n p2 f args k ai)
+    RR pub ov0 (directiveTail env1 n p1 f args k ai) (directiveTail env2 n p2 f args k ai)
   finishPrintf : ∀ ov0 p1 p2 args k, PRel p1 p2 → p1.override = ov0 → ListOk args → SecAtL pub ov0 args →
-    RR ov0 (finishPrintf env1 n p1 args k) (finishPrintf env2 n p2 args k)
+    RR pub ov0 (finishPrintf env1 n p1 args k) (finishPrintf env2 n p2 args k)
   extraLoop : ∀ ov0 p1 p2 args f, PRel p1 p2 → p1.override = ov0 → ListOk args → SecAtL pub ov0 args →
-    RR ov0 (extraLoop env1 n p1 args f) (extraLoop env2 n p2 args f)
+    RR pub ov0 (extraLoop env1 n p1 args f) (extraLoop env2 n p2 args f)
 
 theorem rspec_zero (pub : Nat → Prop) (env1 env2 : Env) : RSpec pub env1 env2 0 := by
   constructor <;> intros <;> simp only [printArg, printArgBody, badVerb, handleMethods, methDispatch, fmtString, catchPanic,
@@ -454,22 +489,28 @@ theorem rspec_zero (pub : Nat → Prop) (env1 env2 : Env) : RSpec pub env1 env2 
   all_goals first
     | exact RR_fuel _
     | exact ⟨rfl, RR_fuel _⟩
-    | (show RR _ .fuel .fuel; trivial)
+    | (show RR pub _ .fuel .fuel; trivial)
     | trivial
 
 
 /-! ### Step lemmas -/
 
-variable {pub : Nat → Prop} {env1 env2 : Env} {n : Nat}
+variable {env1 env2 : Env} {n : Nat}
 
 theorem secAt_safeW {ov : Override} {v : Val} (h : SecAt pub ov (.safeW v)) :
     SecAt pub (if ov = .no then .ovSafe else ov) v := by
-  cases ov <;> simpa [SecAt, SecV, AllPubV] using h
+  cases ov
+  · simpa [SecAt, SecV, AllPubV] using h
+  · simpa [SecAt, SecV, AllPubV] using h
+  · have : AllPubV pub v := by simpa [SecAt, SecV] using h
+    exact sec_of_allPubV pub v this
 
 theorem secAt_unsafeW {ov : Override} {v : Val} (h : SecAt pub ov (.unsafeW v)) :
     SecAt pub (if ov = .no then .ovUnsafe else ov) v := by
-  cases ov <;> simp [SecAt] at h ⊢
-  simpa [AllPubV] using h
+  cases ov
+  · simpa [SecAt, SecV] using h
+  · simpa [SecAt, AllPubV] using h
+  · simpa [SecAt, SecV] using h
 
 /-- A value of a registered or `SafeValue` type is public throughout. -/
 theorem secV_flagged {v : Val} (h : SecV pub v) (hf : isRegistered v = true ∨ isSafeValue v = true) : AllPubV pub v := by
@@ -507,7 +548,7 @@ macro_rules
       by first | exact ($h).ro | rfl,
       by first | exact ($h).ga | rfl⟩)
 
-theorem RR_from {ov0 : Override} {r1 r2 : Res} (h : RR ov0 r1 r2) {ov1 : Override} (e : ov0 = ov1) : RR ov1 r1 r2 := e ▸ h
+theorem RR_from {ov0 : Override} {r1 r2 : Res} (h : RR pub ov0 r1 r2) {ov1 : Override} (e : ov0 = ov1) : RR pub ov1 r1 r2 := e ▸ h
 
 /-- Related states whose (common) override is `ov0`. -/
 def PO (ov0 : Override) (p1 p2 : PP) : Prop := PRel p1 p2 ∧ p1.override = ov0
@@ -518,7 +559,7 @@ theorem PO.wr {ov0 : Override} {p1 p2 : PP} (h : PO ov0 p1 p2) (r : Int) : PO ov
 theorem PO.ite {ov0 : Override} {c : Prop} [Decidable c] {a1 b1 a2 b2 : PP} (ha : PO ov0 a1 a2) (hb : PO ov0 b1 b2) :
     PO ov0 (if c then a1 else b1) (if c then a2 else b2) := by
   split <;> assumption
-theorem PO.ok {ov0 : Override} {q1 q2 : PP} (h : PO ov0 q1 q2) : RR ov0 (.ok q1) (.ok q2) := h
+theorem PO.ok {ov0 : Override} {q1 q2 : PP} (h : PO ov0 q1 q2) : RR pub ov0 (.ok q1) (.ok q2) := h
 
 theorem ov_if_no_safe {p : PP} {ov0 : Override} (ho : p.override = ov0) :
     p.startSafeOverride.1.override = (if ov0 = .no then .ovSafe else ov0) := by
@@ -530,9 +571,9 @@ theorem ov_if_no_unsafe {p : PP} {ov0 : Override} (ho : p.override = ov0) :
 
 theorem rstep_printArg (S : RSpec pub env1 env2 n) :
     ∀ ov0 p1 p2 v verb, PRel p1 p2 → p1.override = ov0 → ValOk v → SecAt pub ov0 v →
-    RR ov0 (printArg env1 (n + 1) p1 v verb) (printArg env2 (n + 1) p2 v verb) := by
+    RR pub ov0 (printArg env1 (n + 1) p1 v verb) (printArg env2 (n + 1) p2 v verb) := by
   intro ov0 p1 p2 v verb hp ho hv hs
-  have body1 : ∀ ov q1 q2, PRel q1 q2 → q1.override = ov → SecAt pub ov v → RR ov
+  have body1 : ∀ ov q1 q2, PRel q1 q2 → q1.override = ov → SecAt pub ov v → RR pub ov
       (if isSafeValue v then bracket PP.startSafeOverride q1 fun q => printArgBody env1 n q v verb
        else printArgBody env1 n q1 v verb)
       (if isSafeValue v then bracket PP.startSafeOverride q2 fun q => printArgBody env2 n q v verb
@@ -567,7 +608,7 @@ theorem rstep_printArg (S : RSpec pub env1 env2 n) :
 theorem rstep_fmtString (he : EnvRel pub env1 env2) (S : RSpec pub env1 env2 n) :
     ∀ ov0 p1 p2 v ret verb, PRel p1 p2 → p1.override = ov0 → ValOk v → (verbOkFor .str verb = false → SecAt pub ov0 v) →
     (ov0 = .ovSafe → pub ret) →
-    RR ov0 (fmtString env1 (n + 1) p1 v ret verb) (fmtString env2 (n + 1) p2 v ret verb) := by
+    RR pub ov0 (fmtString env1 (n + 1) p1 v ret verb) (fmtString env2 (n + 1) p2 v ret verb) := by
   intro ov0 p1 p2 v ret verb hp ho hv hs hr
   simp only [fmtString]
   split
@@ -577,7 +618,7 @@ theorem rstep_fmtString (he : EnvRel pub env1 env2) (S : RSpec pub env1 env2 n) 
 
 theorem rstep_badVerb (S : RSpec pub env1 env2 n) :
     ∀ ov0 p1 p2 v verb via, PRel p1 p2 → p1.override = ov0 → ValOk v → SecAt pub ov0 v →
-    RR ov0 (badVerb env1 (n + 1) p1 v verb via) (badVerb env2 (n + 1) p2 v verb via) := by
+    RR pub ov0 (badVerb env1 (n + 1) p1 v verb via) (badVerb env2 (n + 1) p2 v verb via) := by
   intro ov0 p1 p2 v verb via hp ho hv hs
   unfold badVerb
   have h1 : PO ov0 { p1 with erroring := true } { p2 with erroring := true } := ⟨by prel_upd hp, ho⟩
@@ -600,8 +641,8 @@ theorem secAt_leaf {ov0 : Override} {id : Nat} {k : BK} {ty : List Byte} {iv : O
   intro ho; subst ho; simpa [SecAt, AllPubV] using h
 
 /-- Consume a `(handled, result)` pair of both runs. -/
-theorem RR_handled {ov0 : Override} (x1 x2 : Bool × Res) (k1 k2 : Res) : RB ov0 x1 x2 → RR ov0 k1 k2 →
-    RR ov0 (match x1 with | (true, r) => r | (false, _) => k1) (match x2 with | (true, r) => r | (false, _) => k2) := by
+theorem RR_handled {ov0 : Override} (x1 x2 : Bool × Res) (k1 k2 : Res) : RB pub ov0 x1 x2 → RR pub ov0 k1 k2 →
+    RR pub ov0 (match x1 with | (true, r) => r | (false, _) => k1) (match x2 with | (true, r) => r | (false, _) => k2) := by
   intro h hk
   obtain ⟨b1, r1⟩ := x1
   obtain ⟨b2, r2⟩ := x2
@@ -626,7 +667,7 @@ macro_rules
 
 theorem rstep_printArgBody (he : EnvRel pub env1 env2) (S : RSpec pub env1 env2 n) :
     ∀ ov0 p1 p2 v verb, PRel p1 p2 → p1.override = ov0 → ValOk v → SecAt pub ov0 v →
-    RR ov0 (printArgBody env1 (n + 1) p1 v verb) (printArgBody env2 (n + 1) p2 v verb) := by
+    RR pub ov0 (printArgBody env1 (n + 1) p1 v verb) (printArgBody env2 (n + 1) p2 v verb) := by
   intro ov0 p1 p2 v verb hp ho hv hs
   prel_cases
   simp only at ho
@@ -666,13 +707,14 @@ theorem msec_of_secAt {ov0 : Override} {ms : Methods} {ty : List Byte} {sv reg n
     exact ⟨h.2.2.1, ⟨fun hh => (by cases hh), fun _ hm => h.2.1 hm⟩⟩
   · simp only [SecAt, AllPubV] at h
     exact ⟨h.2.1, ⟨fun _ => h.1, fun hh => by cases hh⟩⟩
-  · exact ⟨trivial, ⟨fun hh => (by cases hh), fun hh => by cases hh⟩⟩
+  · simp only [SecAt, SecV] at h
+    exact ⟨h.2.2.1, ⟨fun hh => (by cases hh), fun hh => by cases hh⟩⟩
 
-theorem RB_mk {ov0 : Override} {b : Bool} {r1 r2 : Res} (h : RR ov0 r1 r2) : RB ov0 (b, r1) (b, r2) := ⟨rfl, h⟩
+theorem RB_mk {ov0 : Override} {b : Bool} {r1 r2 : Res} (h : RR pub ov0 r1 r2) : RB pub ov0 (b, r1) (b, r2) := ⟨rfl, h⟩
 
 theorem rstep_handleMethods (S : RSpec pub env1 env2 n) :
     ∀ ov0 p1 p2 v verb, PRel p1 p2 → p1.override = ov0 → ValOk v → SecAt pub ov0 v →
-    RB ov0 (handleMethods env1 (n + 1) p1 v verb) (handleMethods env2 (n + 1) p2 v verb) := by
+    RB pub ov0 (handleMethods env1 (n + 1) p1 v verb) (handleMethods env2 (n + 1) p2 v verb) := by
   intro ov0 p1 p2 v verb hp ho hv hs
   prel_cases
   simp only at ho
@@ -714,7 +756,7 @@ theorem secAt_of_panic {ov0 : Override} {pl : Val} (h : SecAtS pub ov0 (.panic p
   cases ov0 <;> simpa [SecAtS, SecAt, SecS, AllPubS] using h
 
 theorem SR_retOut {ov0 : Override} {p1 p2 : PP} (h : PO ov0 p1 p2) (nr : Bool) (sc : Script) {r1 r2 : Res}
-    (hsc : ScriptOk sc) (hss : SecAtS pub ov0 sc) (hr : RR ov0 r1 r2) :
+    (hsc : ScriptOk sc) (hss : SecAtS pub ov0 sc) (hr : RR pub ov0 r1 r2) :
     SR pub ov0 (retOut nr p1 sc r1) (retOut nr p2 sc r2) := by
   unfold retOut
   split
@@ -726,7 +768,7 @@ theorem SR_retOut {ov0 : Override} {p1 p2 : PP} (h : PO ov0 p1 p2) (nr : Bool) (
 theorem rstep_methDispatch (he : EnvRel pub env1 env2) (S : RSpec pub env1 env2 n) :
     ∀ ov0 p1 p2 v ms nr ret sc verb, PRel p1 p2 → p1.override = ov0 → ValOk v → ScriptOk sc → SecAt pub ov0 v →
     MSec pub ov0 ms ret sc →
-    RB ov0 (methDispatch env1 (n + 1) p1 v ms nr ret sc verb) (methDispatch env2 (n + 1) p2 v ms nr ret sc verb) := by
+    RB pub ov0 (methDispatch env1 (n + 1) p1 v ms nr ret sc verb) (methDispatch env2 (n + 1) p2 v ms nr ret sc verb) := by
   intro ov0 p1 p2 v ms nr ret sc verb hp ho hv hsc hs hm
   prel_cases
   simp only at ho
@@ -734,7 +776,7 @@ theorem rstep_methDispatch (he : EnvRel pub env1 env2) (S : RSpec pub env1 env2 
   unfold methDispatch
   rw [he.hook]
   simp only
-  have hfs : RR ov0 (fmtString env1 n _ v ret verb) (fmtString env2 n _ v ret verb) :=
+  have hfs : RR pub ov0 (fmtString env1 n _ v ret verb) (fmtString env2 n _ v ret verb) :=
     S.fmtString _ _ _ _ _ _ hp ho hv (fun _ => hs) hm.2.1
   split
   · -- SafeFormatter
@@ -765,7 +807,7 @@ theorem rstep_methDispatch (he : EnvRel pub env1 env2) (S : RSpec pub env1 env2 
             cases ov0
             · exact this.1
             · exact this.2 (hm.2.1 rfl)
-            · trivial
+            · exact this.1
           exact RB_mk (S.catchPanic _ _ _ _ _ _ _ _ _ (SR_ite_nil hpo _ (S.runScript _ _ _ _ hp ho hsk hss)))
         · exact RB_mk hpo.ok
       · split
@@ -793,7 +835,7 @@ theorem rstep_methDispatch (he : EnvRel pub env1 env2) (S : RSpec pub env1 env2 
 
 theorem rstep_catchPanic (S : RSpec pub env1 env2 n) :
     ∀ p01 p02 ov0 arg verb m nr out1 out2, SR pub ov0 out1 out2 →
-    RR ov0 (catchPanic env1 (n + 1) p01 arg verb m nr out1) (catchPanic env2 (n + 1) p02 arg verb m nr out2) := by
+    RR pub ov0 (catchPanic env1 (n + 1) p01 arg verb m nr out1) (catchPanic env2 (n + 1) p02 arg verb m nr out2) := by
   intro p01 p02 ov0 arg verb m nr out1 out2 h
   unfold catchPanic
   cases out1 <;> cases out2 <;> simp only [SR] at h <;> try (exact h.elim)
@@ -809,7 +851,7 @@ theorem rstep_catchPanic (S : RSpec pub env1 env2 n) :
       simp only at ho
       simp only
       split
-      · exact RR_panic _
+      · exact RR_panic hp.b hvpl hspl
       · have h1 : PO ov0 ({ buf := b1, override := o, f := f.clear, erroring := e, panicking := pa, wrapErrs := we, wrappedErr := wd, reordered := ro, goodArgNum := ga } : PP)
             { buf := b2, override := o, f := f.clear, erroring := e, panicking := pa, wrapErrs := we, wrappedErr := wd, reordered := ro, goodArgNum := ga } :=
           ⟨by prel_upd hp, ho⟩
@@ -830,7 +872,7 @@ theorem PO_bracket_step {ov0 : Override} (start : PP → PP × PP.Restorer) (hs 
     (h : PO ov0 p1 p2) (f1 f2 : PP → PP)
     (hf : PRel (f1 (start p1).1) (f2 (start p2).1)) (hfo : (f1 (start p1).1).override = (start p1).1.override) :
     PO ov0 ((f1 (start p1).1).restore (start p1).2) ((f2 (start p2).1).restore (start p2).2) := by
-  have := RR_bracket start hs h.1 h.2 (fun q => .ok (f1 q)) (fun q => .ok (f2 q)) ⟨hf, hfo⟩
+  have := RR_bracket (pub := fun _ => True) start hs h.1 h.2 (fun q => .ok (f1 q)) (fun q => .ok (f2 q)) ⟨hf, hfo⟩
   simp only [bracket, Res.bind, RR] at this
   exact this
 
@@ -841,7 +883,7 @@ theorem secAtS_tail {ov0 : Override} {sc k : Script} (h : SecAtS pub ov0 sc)
   cases ov0
   · exact hk.2 h
   · exact hk.1 h
-  · trivial
+  · exact hk.2 h
 
 theorem secAtL_of_vals {ov0 : Override} : (vs : Vals) → SecAtVs pub ov0 vs → SecAtL pub ov0 vs.toList
   | .nil, _ => by intro v hv; simp [Vals.toList] at hv
@@ -855,7 +897,9 @@ theorem secAtL_of_vals {ov0 : Override} : (vs : Vals) → SecAtVs pub ov0 vs →
     · rcases hv with rfl | hv
       · exact h.1
       · exact secAtL_of_vals (ov0 := .ovSafe) r h.2 v hv
-    · trivial
+    · rcases hv with rfl | hv
+      · exact h.1
+      · exact secAtL_of_vals (ov0 := .ovUnsafe) r h.2 v hv
 
 theorem rstep_runScript (he : EnvRel pub env1 env2) (S : RSpec pub env1 env2 n) :
     ∀ ov0 p1 p2 sc, PRel p1 p2 → p1.override = ov0 → ScriptOk sc → SecAtS pub ov0 sc →
@@ -898,7 +942,7 @@ theorem rstep_runScript (he : EnvRel pub env1 env2) (S : RSpec pub env1 env2 n) 
     rename_i args k
     have hargs : ListOk args.toList := listOk_of_valsOk _ (by simp only [ScriptOk] at hsc; exact hsc.1)
     have hk : ScriptOk k := by simp only [ScriptOk] at hsc; exact hsc.2
-    have hsa : SecAtL pub ov0 args.toList := secAtL_of_vals _ (by cases ov0 <;> first | exact hss.1 | trivial)
+    have hsa : SecAtL pub ov0 args.toList := secAtL_of_vals _ (by cases ov0 <;> exact hss.1)
     have hsk : SecAtS pub ov0 k := secAtS_tail hss ⟨by simp only [AllPubS]; exact fun h => h.2, by simp only [SecS]; exact fun h => h.2⟩
     have hnp : PRel ({ buf := p1.buf, override := p1.override } : PP) { buf := p2.buf, override := p2.override } :=
       ⟨hp.b, hp.nr, hp.ov, rfl, rfl, rfl, rfl, rfl, rfl, rfl⟩
@@ -915,12 +959,20 @@ theorem rstep_runScript (he : EnvRel pub env1 env2) (S : RSpec pub env1 env2 n) 
         · show (n1.buf.setMode p1.buf.mode).mode ≠ _
           rw [setMode_mode]; exact hp.nr
       exact S.runScript _ _ _ _ g.1 g.2 hk hsk
+    · -- a panic left the nested printer in both runs: buffer handed back, the method has panicked
+      rename_i c1 pl1 c2 pl2
+      obtain ⟨hbr, rfl, hv, hsec⟩ := hd
+      refine ⟨⟨?_, ?_, hp.ov, hp.f, hp.er, hp.pa, hp.we, hp.wd, hp.ro, hp.ga⟩, ho, rfl, hv, hsec⟩
+      · show BRel (c1.setMode p1.buf.mode) (c2.setMode p2.buf.mode)
+        rw [hp.mode2]; exact setMode_rel _ _ _ hbr
+      · show (c1.setMode p1.buf.mode).mode ≠ _
+        rw [setMode_mode]; exact hp.nr
     all_goals trivial
   · -- printf
     rename_i f args k
     have hargs : ListOk args.toList := listOk_of_valsOk _ (by simp only [ScriptOk] at hsc; exact hsc.1)
     have hk : ScriptOk k := by simp only [ScriptOk] at hsc; exact hsc.2
-    have hsa : SecAtL pub ov0 args.toList := secAtL_of_vals _ (by cases ov0 <;> first | exact hss.1 | trivial)
+    have hsa : SecAtL pub ov0 args.toList := secAtL_of_vals _ (by cases ov0 <;> exact hss.1)
     have hsk : SecAtS pub ov0 k := secAtS_tail hss ⟨by simp only [AllPubS]; exact fun h => h.2, by simp only [SecS]; exact fun h => h.2⟩
     have hnp : PRel ({ buf := p1.buf, override := p1.override } : PP) { buf := p2.buf, override := p2.override } :=
       ⟨hp.b, hp.nr, hp.ov, rfl, rfl, rfl, rfl, rfl, rfl, rfl⟩
@@ -937,10 +989,18 @@ theorem rstep_runScript (he : EnvRel pub env1 env2) (S : RSpec pub env1 env2 n) 
         · show (n1.buf.setMode p1.buf.mode).mode ≠ _
           rw [setMode_mode]; exact hp.nr
       exact S.runScript _ _ _ _ g.1 g.2 hk hsk
+    · -- a panic left the nested printer in both runs: buffer handed back, the method has panicked
+      rename_i c1 pl1 c2 pl2
+      obtain ⟨hbr, rfl, hv, hsec⟩ := hd
+      refine ⟨⟨?_, ?_, hp.ov, hp.f, hp.er, hp.pa, hp.we, hp.wd, hp.ro, hp.ga⟩, ho, rfl, hv, hsec⟩
+      · show BRel (c1.setMode p1.buf.mode) (c2.setMode p2.buf.mode)
+        rw [hp.mode2]; exact setMode_rel _ _ _ hbr
+      · show (c1.setMode p1.buf.mode).mode ≠ _
+        rw [setMode_mode]; exact hp.nr
     all_goals trivial
 
-theorem RR_then_wb {ov0 : Override} {r1 r2 : Res} (h : RR ov0 r1 r2) (c : Byte) :
-    RR ov0 (r1.bind fun q => .ok (q.wb c)) (r2.bind fun q => .ok (q.wb c)) :=
+theorem RR_then_wb {ov0 : Override} {r1 r2 : Res} (h : RR pub ov0 r1 r2) (c : Byte) :
+    RR pub ov0 (r1.bind fun q => .ok (q.wb c)) (r2.bind fun q => .ok (q.wb c)) :=
   RR_bind h (fun _ _ hq ho => RR_ok (P_wb hq c) ho)
 
 theorem secAt_under {ov0 : Override} {ms : Methods} {ty : List Byte} {sv reg nr : Bool} {ret : Nat} {sc : Script} {under : Val}
@@ -948,28 +1008,28 @@ theorem secAt_under {ov0 : Override} {ms : Methods} {ty : List Byte} {sv reg nr 
   cases ov0
   · simp only [SecAt, SecV] at h; exact h.2.2.2
   · simp only [SecAt, AllPubV] at h; exact h.2.2
-  · trivial
+  · simp only [SecAt, SecV] at h; exact h.2.2.2
 
 theorem secAt_struct {ov0 : Override} {ty : List Byte} {reg : Bool} {fs : Fields}
     (h : SecAt pub ov0 (.struct ty reg fs)) : SecAtFs pub ov0 fs := by
   cases ov0
   · simp only [SecAt, SecV] at h; exact h.2
   · simp only [SecAt, AllPubV] at h; exact h
-  · trivial
+  · simp only [SecAt, SecV] at h; exact h.2
 
 theorem secAt_slice {ov0 : Override} {ty : List Byte} {a b : Bool} {es : Vals}
     (h : SecAt pub ov0 (.slice ty a b es)) : SecAtVs pub ov0 es := by
   cases ov0
   · simp only [SecAt, SecV] at h; exact h
   · simp only [SecAt, AllPubV] at h; exact h
-  · trivial
+  · simp only [SecAt, SecV] at h; exact h
 
 theorem secAt_map {ov0 : Override} {ty : List Byte} {a b c : Bool} {ks vs : Vals}
     (h : SecAt pub ov0 (.map ty a b c ks vs)) : SecAtVs pub ov0 ks ∧ SecAtVs pub ov0 vs := by
   cases ov0
   · simp only [SecAt, SecV] at h; exact h
   · simp only [SecAt, AllPubV] at h; exact h
-  · exact ⟨trivial, trivial⟩
+  · simp only [SecAt, SecV] at h; exact h
 
 theorem secAt_ptrTo {ov0 : Override} {ty : List Byte} {to : Val}
     (h : SecAt pub ov0 (.ptrTo ty to)) : SecAt pub ov0 to := by
@@ -980,7 +1040,7 @@ theorem secAt_ptrTo {ov0 : Override} {ty : List Byte} {to : Val}
 
 theorem rstep_printValue (he : EnvRel pub env1 env2) (S : RSpec pub env1 env2 n) :
     ∀ ov0 p1 p2 v verb d ro, PRel p1 p2 → p1.override = ov0 → ValOk v → SecAt pub ov0 v →
-    RR ov0 (printValue env1 (n + 1) p1 v verb d ro) (printValue env2 (n + 1) p2 v verb d ro) := by
+    RR pub ov0 (printValue env1 (n + 1) p1 v verb d ro) (printValue env2 (n + 1) p2 v verb d ro) := by
   intro ov0 p1 p2 v verb d ro hp ho hv hs
   prel_cases
   simp only at ho
@@ -1033,7 +1093,7 @@ theorem rstep_printValue (he : EnvRel pub env1 env2) (S : RSpec pub env1 env2 n)
 
 theorem rstep_printSlot (S : RSpec pub env1 env2 n) :
     ∀ ov0 p1 p2 v verb d i ro, PRel p1 p2 → p1.override = ov0 → ValOk v → SecAt pub ov0 v →
-    RR ov0 (printSlot env1 (n + 1) p1 v verb d i ro) (printSlot env2 (n + 1) p2 v verb d i ro) := by
+    RR pub ov0 (printSlot env1 (n + 1) p1 v verb d i ro) (printSlot env2 (n + 1) p2 v verb d i ro) := by
   intro ov0 p1 p2 v verb d i ro hp ho hv hs
   have hpo : PO ov0 p1 p2 := ⟨hp, ho⟩
   unfold printSlot
@@ -1044,14 +1104,14 @@ theorem rstep_printSlot (S : RSpec pub env1 env2 n) :
     · exact (hpo.w _).ok
   · dsimp only
     -- the general prologue, for any related pair in any override context
-    have noMethod : ∀ ov q1 q2, PRel q1 q2 → q1.override = ov → SecAt pub ov v → RR ov
+    have noMethod : ∀ ov q1 q2, PRel q1 q2 → q1.override = ov → SecAt pub ov v → RR pub ov
         (if i = true then printSlot env1 n q1 v verb (d + 1) false ro else printValue env1 n q1 v verb d ro)
         (if i = true then printSlot env2 n q2 v verb (d + 1) false ro else printValue env2 n q2 v verb d ro) := by
       intro ov q1 q2 hq hoq hsq
       split
       · exact S.printSlot _ _ _ _ _ _ _ _ hq hoq hv hsq
       · exact S.printValue _ _ _ _ _ _ _ hq hoq hv hsq
-    have afterMethods : ∀ ov q1 q2, PRel q1 q2 → q1.override = ov → SecAt pub ov v → RR ov
+    have afterMethods : ∀ ov q1 q2, PRel q1 q2 → q1.override = ov → SecAt pub ov v → RR pub ov
         (if (!ro) = true then
           match slotMethods env1 n q1 v verb with
           | (true, r) => r
@@ -1066,7 +1126,7 @@ theorem rstep_printSlot (S : RSpec pub env1 env2 n) :
       split
       · exact RR_handled _ _ _ _ (S.slotMethods _ _ _ _ _ hq hoq hv hsq) (noMethod _ _ _ hq hoq hsq)
       · exact noMethod _ _ _ hq hoq hsq
-    have body : ∀ ov q1 q2, PRel q1 q2 → q1.override = ov → SecAt pub ov v → RR ov
+    have body : ∀ ov q1 q2, PRel q1 q2 → q1.override = ov → SecAt pub ov v → RR pub ov
         (if (!ro) = true ∧ isSafeValue v = true then bracket PP.startSafeOverride q1 (fun q =>
             if (!ro) = true then
               match slotMethods env1 n q v verb with
@@ -1098,7 +1158,7 @@ theorem rstep_printSlot (S : RSpec pub env1 env2 n) :
         exact RR_from (afterMethods _ _ _ (startOk_safeOverride.rel _ _ hq) (ov_if_no_safe hoq) (secAt_flagged hsq (Or.inr hc.2)))
           (ov_if_no_safe hoq).symm
       · exact afterMethods _ _ _ hq hoq hsq
-    have general : RR ov0
+    have general : RR pub ov0
         (if (!i) = true ∧ isRegistered v = true then bracket PP.startSafeOverride p1 (fun q0 =>
           (if (!ro) = true ∧ isSafeValue v = true then bracket PP.startSafeOverride q0 (fun q =>
             if (!ro) = true then
@@ -1181,7 +1241,7 @@ theorem rstep_printSlot (S : RSpec pub env1 env2 n) :
 
 theorem rstep_slotMethods (S : RSpec pub env1 env2 n) :
     ∀ ov0 p1 p2 v verb, PRel p1 p2 → p1.override = ov0 → ValOk v → SecAt pub ov0 v →
-    RB ov0 (slotMethods env1 (n + 1) p1 v verb) (slotMethods env2 (n + 1) p2 v verb) := by
+    RB pub ov0 (slotMethods env1 (n + 1) p1 v verb) (slotMethods env2 (n + 1) p2 v verb) := by
   intro ov0 p1 p2 v verb hp ho hv hs
   have hpo : PO ov0 p1 p2 := ⟨hp, ho⟩
   unfold slotMethods
@@ -1201,7 +1261,8 @@ theorem rstep_slotMethods (S : RSpec pub env1 env2 n) :
         generalize runScript env2 n p2 (.print (.cons (.redactable c ty) .nil) .done) = x2 at this ⊢
         cases x1 <;> cases x2 <;> simp only [SR] at this <;> try (exact this.elim)
         · exact this
-        · exact RR_panic _
+        · obtain ⟨hq, _, rfl, hv', hs'⟩ := this
+          exact RR_panic hq.b hv' hs'
         · exact this
       · exact RB_mk hpo.ok
     · exact RB_mk (RR_unsupported _)
@@ -1213,18 +1274,18 @@ theorem secAtFs_cons {ov0 : Override} {nm : List Byte} {ex it : Bool} {v : Val} 
   cases ov0
   · simp only [SecAtFs, SecFs] at h; exact h
   · simp only [SecAtFs, AllPubFs] at h; exact h
-  · exact ⟨trivial, trivial⟩
+  · simp only [SecAtFs, SecFs] at h; exact h
 
 theorem secAtVs_cons {ov0 : Override} {v : Val} {r : Vals}
     (h : SecAtVs pub ov0 (.cons v r)) : SecAt pub ov0 v ∧ SecAtVs pub ov0 r := by
   cases ov0
   · simp only [SecAtVs, SecVs] at h; exact h
   · simp only [SecAtVs, AllPubVs] at h; exact h
-  · exact ⟨trivial, trivial⟩
+  · simp only [SecAtVs, SecVs] at h; exact h
 
 theorem rstep_printFields (S : RSpec pub env1 env2 n) :
     ∀ ov0 p1 p2 fs verb d ro f, PRel p1 p2 → p1.override = ov0 → FieldsOk fs → SecAtFs pub ov0 fs →
-    RR ov0 (printFields env1 (n + 1) p1 fs verb d ro f) (printFields env2 (n + 1) p2 fs verb d ro f) := by
+    RR pub ov0 (printFields env1 (n + 1) p1 fs verb d ro f) (printFields env2 (n + 1) p2 fs verb d ro f) := by
   intro ov0 p1 p2 fs verb d rdo fst hp ho hfs hss
   have hpo : PO ov0 p1 p2 := ⟨hp, ho⟩
   unfold printFields
@@ -1248,7 +1309,7 @@ theorem rstep_printFields (S : RSpec pub env1 env2 n) :
 
 theorem rstep_printElems (S : RSpec pub env1 env2 n) :
     ∀ ov0 p1 p2 vs verb d i ro f, PRel p1 p2 → p1.override = ov0 → ValsOk vs → SecAtVs pub ov0 vs →
-    RR ov0 (printElems env1 (n + 1) p1 vs verb d i ro f) (printElems env2 (n + 1) p2 vs verb d i ro f) := by
+    RR pub ov0 (printElems env1 (n + 1) p1 vs verb d i ro f) (printElems env2 (n + 1) p2 vs verb d i ro f) := by
   intro ov0 p1 p2 vs verb d i rdo fst hp ho hvs hss
   have hpo : PO ov0 p1 p2 := ⟨hp, ho⟩
   unfold printElems
@@ -1267,7 +1328,7 @@ theorem rstep_printElems (S : RSpec pub env1 env2 n) :
 theorem rstep_printPairs (S : RSpec pub env1 env2 n) :
     ∀ ov0 p1 p2 ks vs verb d ik iv ro f, PRel p1 p2 → p1.override = ov0 → ValsOk ks → ValsOk vs →
     SecAtVs pub ov0 ks → SecAtVs pub ov0 vs →
-    RR ov0 (printPairs env1 (n + 1) p1 ks vs verb d ik iv ro f) (printPairs env2 (n + 1) p2 ks vs verb d ik iv ro f) := by
+    RR pub ov0 (printPairs env1 (n + 1) p1 ks vs verb d ik iv ro f) (printPairs env2 (n + 1) p2 ks vs verb d ik iv ro f) := by
   intro ov0 p1 p2 ks vs verb d ik iv rdo fst hp ho hks hvs hsk hsv
   have hpo : PO ov0 p1 p2 := ⟨hp, ho⟩
   unfold printPairs
@@ -1388,7 +1449,7 @@ theorem PO.ite' {ov0 : Override} {c1 c2 : Prop} [Decidable c1] [Decidable c2] (h
   · rw [if_neg h, if_neg (fun h2 => h (hc.2 h2))]; exact hb
 
 theorem RR_ite' {ov0 : Override} {c1 c2 : Prop} [Decidable c1] [Decidable c2] (hc : c1 ↔ c2) {a1 b1 a2 b2 : Res}
-    (ha : RR ov0 a1 a2) (hb : RR ov0 b1 b2) : RR ov0 (if c1 then a1 else b1) (if c2 then a2 else b2) := by
+    (ha : RR pub ov0 a1 a2) (hb : RR pub ov0 b1 b2) : RR pub ov0 (if c1 then a1 else b1) (if c2 then a2 else b2) := by
   by_cases h : c1
   · rw [if_pos h, if_pos (hc.1 h)]; exact ha
   · rw [if_neg h, if_neg (fun h2 => h (hc.2 h2))]; exact hb
@@ -1403,7 +1464,7 @@ theorem secAtL_tail {ov0 : Override} {a : Val} {l : List Val} (h : SecAtL pub ov
 
 theorem rstep_doPrint (S : RSpec pub env1 env2 n) :
     ∀ ov0 p1 p2 args, PRel p1 p2 → p1.override = ov0 → ListOk args → SecAtL pub ov0 args →
-    RR ov0 (doPrint env1 (n + 1) p1 args) (doPrint env2 (n + 1) p2 args) := by
+    RR pub ov0 (doPrint env1 (n + 1) p1 args) (doPrint env2 (n + 1) p2 args) := by
   intro ov0 p1 p2 args hp ho ha hs
   unfold doPrint
   dsimp only
@@ -1412,7 +1473,7 @@ theorem rstep_doPrint (S : RSpec pub env1 env2 n) :
 
 theorem rstep_doPrintLoop (S : RSpec pub env1 env2 n) :
     ∀ ov0 p1 p2 args k ps, PRel p1 p2 → p1.override = ov0 → ListOk args → SecAtL pub ov0 args →
-    RR ov0 (doPrintLoop env1 (n + 1) p1 args k ps) (doPrintLoop env2 (n + 1) p2 args k ps) := by
+    RR pub ov0 (doPrintLoop env1 (n + 1) p1 args k ps) (doPrintLoop env2 (n + 1) p2 args k ps) := by
   intro ov0 p1 p2 args k ps hp ho ha hs
   have hpo : PO ov0 p1 p2 := ⟨hp, ho⟩
   unfold doPrintLoop
@@ -1427,7 +1488,7 @@ theorem rstep_doPrintLoop (S : RSpec pub env1 env2 n) :
 
 theorem rstep_doPrintf (S : RSpec pub env1 env2 n) :
     ∀ ov0 p1 p2 f args, PRel p1 p2 → p1.override = ov0 → ListOk args → SecAtL pub ov0 args →
-    RR ov0 (doPrintf env1 (n + 1) p1 f args) (doPrintf env2 (n + 1) p2 f args) := by
+    RR pub ov0 (doPrintf env1 (n + 1) p1 f args) (doPrintf env2 (n + 1) p2 f args) := by
   intro ov0 p1 p2 f args hp ho ha hs
   unfold doPrintf
   dsimp only
@@ -1443,7 +1504,7 @@ theorem rstep_doPrintf (S : RSpec pub env1 env2 n) :
 
 theorem rstep_extraLoop (S : RSpec pub env1 env2 n) :
     ∀ ov0 p1 p2 args f, PRel p1 p2 → p1.override = ov0 → ListOk args → SecAtL pub ov0 args →
-    RR ov0 (extraLoop env1 (n + 1) p1 args f) (extraLoop env2 (n + 1) p2 args f) := by
+    RR pub ov0 (extraLoop env1 (n + 1) p1 args f) (extraLoop env2 (n + 1) p2 args f) := by
   intro ov0 p1 p2 args fst hp ho ha hs
   have hpo : PO ov0 p1 p2 := ⟨hp, ho⟩
   unfold extraLoop
@@ -1469,7 +1530,7 @@ theorem secAtL_drop {ov0 : Override} {l : List Val} (h : SecAtL pub ov0 l) (k : 
 
 theorem rstep_finishPrintf (S : RSpec pub env1 env2 n) :
     ∀ ov0 p1 p2 args k, PRel p1 p2 → p1.override = ov0 → ListOk args → SecAtL pub ov0 args →
-    RR ov0 (finishPrintf env1 (n + 1) p1 args k) (finishPrintf env2 (n + 1) p2 args k) := by
+    RR pub ov0 (finishPrintf env1 (n + 1) p1 args k) (finishPrintf env2 (n + 1) p2 args k) := by
   intro ov0 p1 p2 args k hp ho ha hs
   have hpo : PO ov0 p1 p2 := ⟨hp, ho⟩
   unfold finishPrintf
@@ -1487,7 +1548,7 @@ theorem secAtL_get {ov0 : Override} {args : List Val} (h : SecAtL pub ov0 args) 
 
 theorem rstep_fmtLoop (S : RSpec pub env1 env2 n) :
     ∀ ov0 p1 p2 f args k ai, PRel p1 p2 → p1.override = ov0 → ListOk args → SecAtL pub ov0 args →
-    RR ov0 (fmtLoop env1 (n + 1) p1 f args k ai) (fmtLoop env2 (n + 1) p2 f args k ai) := by
+    RR pub ov0 (fmtLoop env1 (n + 1) p1 f args k ai) (fmtLoop env2 (n + 1) p2 f args k ai) := by
   intro ov0 p1 p2 fmt args k ai hp ho ha hs
   unfold fmtLoop
   dsimp only
@@ -1522,7 +1583,7 @@ theorem rstep_fmtLoop (S : RSpec pub env1 env2 n) :
 
 theorem rstep_directiveTail (S : RSpec pub env1 env2 n) :
     ∀ ov0 p1 p2 f args k ai, PRel p1 p2 → p1.override = ov0 → ListOk args → SecAtL pub ov0 args →
-    RR ov0 (directiveTail env1 (n + 1) p1 f args k ai) (directiveTail env2 (n + 1) p2 f args k ai) := by
+    RR pub ov0 (directiveTail env1 (n + 1) p1 f args k ai) (directiveTail env2 (n + 1) p2 f args k ai) := by
   intro ov0 p1 p2 fmt args k ai hp ho ha hs
   have hpo : PO ov0 p1 p2 := ⟨hp, ho⟩
   unfold directiveTail
